@@ -727,7 +727,11 @@ func (e *Engine) builtin(s *State, b *ssa.Builtin, c *ssa.CallCommon, args []*Va
 			e.assert(s, name, "close-closed", in.Pos(), "close of closed or nil channel", and(not(eq(ch, "0")), not(app("select", cx, ch))))
 		}
 		e.heapSet(s, "CX!", "(Array Int Bool)", app("store", cx, ch, "true"))
-		e.event(s, Event{Kind: "close", What: c.Args[0].Name(), Args: args, Pos: e.P.Pos(in.Pos()), Instr: in})
+		clName := c.Args[0].Name()
+		if args[0].Src != "" {
+			clName = args[0].Src
+		}
+		e.event(s, Event{Kind: "close", What: clName, Args: args, Pos: e.P.Pos(in.Pos()), Instr: in})
 		return &Val{}
 	case "print", "println":
 		return &Val{}
